@@ -47,6 +47,18 @@ pub fn run_script(steps: Vec<GStep>, tags: Vec<String>) {
     // `movestogo=N`: every clock `go` of this session also carries the token (the pinned engine ignores it)
     let mtg: String = tags.iter().find_map(|t| t.strip_prefix("movestogo=")).map(|n| format!(" movestogo {}", n)).unwrap_or_default();
     let fen_fields: usize = tags.iter().find_map(|t| t.strip_prefix("fenfields=")).and_then(|n| n.parse().ok()).unwrap_or(6);
+    // `searchmoves`: timed `go`s list two legal root moves first (`go searchmoves m1 m2 wtime ...`; the pinned engine
+    // ignores the token and the moves)
+    let with_sm = tags.iter().any(|t| t == "searchmoves");
+    let sm = |rec: &GameRec| -> String {
+        if !with_sm {
+            return String::new();
+        }
+        match rec.pos().map(|p| p.legal_moves()) {
+            Some(l) if l.len() >= 2 => format!(" searchmoves {} {}", l[0], l[l.len() - 1]),
+            _ => String::new(),
+        }
+    };
     let mut rec = GameRec { root: "startpos".into(), moves: vec![] };
     let mut readies: u64 = 0;
     let mut closed = false;
@@ -56,6 +68,10 @@ pub fn run_script(steps: Vec<GStep>, tags: Vec<String>) {
                 if line.split_ascii_whitespace().next() == Some("isready") {
                     readies += 1;
                 }
+                let line = match line.strip_prefix("go movetime ") {
+                    Some(rest) if with_sm => format!("go{} movetime {}", sm(&rec), rest),
+                    _ => line,
+                };
                 sched::gui_send(st.id, &line);
             }
             GK::NewGame { root, pre } => {
@@ -111,9 +127,9 @@ pub fn run_script(steps: Vec<GStep>, tags: Vec<String>) {
             GK::GoClock { own, own_inc, opp, opp_inc } => {
                 let white = rec.pos().map_or(true, |p| p.white_to_move());
                 let line = if white {
-                    format!("go wtime {} btime {} winc {} binc {}{}", own, opp, own_inc, opp_inc, mtg)
+                    format!("go{} wtime {} btime {} winc {} binc {}{}", sm(&rec), own, opp, own_inc, opp_inc, mtg)
                 } else {
-                    format!("go wtime {} btime {} winc {} binc {}{}", opp, own, opp_inc, own_inc, mtg)
+                    format!("go{} wtime {} btime {} winc {} binc {}{}", sm(&rec), opp, own, opp_inc, own_inc, mtg)
                 };
                 sched::gui_send(st.id, &line);
             }
